@@ -172,6 +172,10 @@ def validateStrategy (names : List N) (assigned : N → Option Nat) (extra : Boo
   else if (names.map assigned).eraseDups.length != names.length then some .valueError
   else none
 
+/-- assignment to / in-place update of `num_sampling_steps` between calls: the next sweeps read the
+    current dictionary (`range` of a negative number is empty) -/
+def reconfigure (g : HG N V) (ns : N → Int) : HG N V := { g with nsteps := fun n => (ns n).toNat }
+
 /-- `HybridGibbs.__init__`/`_initialize`: initial points (`_get_initial_points`: the sampler's own
     `initial_point` or its default, which becomes its `initial_point`), number of steps (default 1;
     `range` of a negative number is empty), `_set_targets`, `sampler.initialize()`. -/
